@@ -288,9 +288,12 @@ package inode
 //@   ensures [R7-persisted] !dirtyinum[ip.Inum] && othersClean(ip) @C01 @C10
 //@   ensures [F3-monotone] ip.ShrinkSize <= old(ip.ShrinkSize) && ip.Size == old(ip.Size) @C05
 //@   ensures [F3-floor] ip.ShrinkSize >= (ip.Size + 4095) / 4096 || ip.ShrinkSize == old(ip.ShrinkSize) @C05 @C02 @C12
+// F3-roots (C05): an index root is given back when the frontier passes below the first block it maps
+//@   ensures [F3-root-passed] (ip.ShrinkSize <= 8 && old(ip.ShrinkSize) > 8 ==> ip.blks[8] == 0) && (ip.ShrinkSize <= 520 && old(ip.ShrinkSize) > 520 ==> ip.blks[9] == 0) @C05
 //@   ensures [I1-inode] inodeInv(ip) @C04
 //@   ensures listsValid(op) && listsStable(op)
 //@   loop 0 invariant inodeInv(ip) && listsValid(op) && listsStable(op) && ip.ShrinkSize <= old(ip.ShrinkSize) && ip.Size == old(ip.Size) && othersClean(ip) && (ip.ShrinkSize >= (ip.Size + 4095) / 4096 || ip.ShrinkSize == old(ip.ShrinkSize))
+//@   loop 0 invariant [roots] (ip.ShrinkSize <= 8 && old(ip.ShrinkSize) > 8 ==> ip.blks[8] == 0) && (ip.ShrinkSize <= 520 && old(ip.ShrinkSize) > 520 ==> ip.blks[9] == 0)
 //@   loop 0 decreases ip.ShrinkSize
 
 //@ spec (*Inode).zeroTail(ip, atxn, sz)
@@ -321,6 +324,11 @@ package inode
 //@   ghostexit shrinkdue = ite(result, store(shrinkdue, ip.Inum, true), shrinkdue)
 //@   ensures [ibits-same] abits[theIalloc] == old(abits)[theIalloc] @C05
 //@   ensures [Fn3-size] ip.Size == sz @C02
+// F3-roots (C05): a write that ran out of space right after allocating an index block leaves that block in
+// the inode, above the end of the file; a truncation that takes the file below the first block an index
+// root maps, and that has finished, must have given the root back (D-39: it started the frontier at the
+// last block, not above it).
+//@   ensures [F3-roots-freed] !result && (sz + 4095) / 4096 < (old(ip.Size) + 4095) / 4096 ==> ((old(ip.Size) + 4095) / 4096 >= 8 && (sz + 4095) / 4096 <= 8 ==> ip.blks[8] == 0) && ((old(ip.Size) + 4095) / 4096 >= 520 && (sz + 4095) / 4096 <= 520 ==> ip.blks[9] == 0) @C05
 //@   ensures [F2-more] result <==> ip.IsShrinking() @C05
 //@   ensures [S1-synced] !dirtyinum[ip.Inum] && othersClean(ip) @C10
 //@   ensures [I1-inode] inodeInv(ip) @C04
